@@ -116,15 +116,17 @@ static void *sorter_thread(void *p) {
   mc.fail_at = j->fail_at;
   struct mtbl_sorter_options *so = mtbl_sorter_options_init();
   mtbl_sorter_options_set_temp_dir(so, j->tdir.c_str());
-  mtbl_sorter_options_set_max_memory(so, 120);
+  // chunks of a handful of entries, or (odd chunk counts) chunks of a hundred and more followed by a short tail
+  bool large = j->chunks % 2 == 1;
+  mtbl_sorter_options_set_max_memory(so, large ? 3000 : 120);
   mtbl_sorter_options_set_merge_func(so, concat_merge, &mc);
   mtbl_sorter_options_set_threadpool(so, j->tp);
   struct mtbl_sorter *s = mtbl_sorter_init(so);
   mtbl_sorter_options_destroy(&so);
   std::map<bytes, bytes, BLess> model;
-  for (int i = 0; i < j->chunks * 4; i++) {
+  for (int i = 0; i < j->chunks * (large ? 60 : 4); i++) {
     char k[8];
-    snprintf(k, sizeof k, "s%d", ((i / 2) * 5) % 11);  // neighbouring adds share a key: chunk jobs call the merge function too
+    snprintf(k, sizeof k, "s%d", ((i / 2) * 5) % (large ? 997 : 11));  // neighbouring adds share a key: chunk jobs call the merge function too
     bytes v = token(0, i);
     model[bytes(k)] += v;
     if (mtbl_sorter_add(s, (const uint8_t *)k, strlen(k), U(v), v.size()) != mtbl_res_success && j->fail_at < 1) j->err = "sorter add failed";
